@@ -382,12 +382,12 @@ typedef struct {
   volatile int lock; volatile uint64_t head, tail; volatile int active; volatile int stop;
   volatile uint64_t schedules, decisions, tree_nodes, races, mismatches, deadlocks, errors, pruned_by_bound, maxpts, accesses, static_writes, crossloc; volatile int maxthreads;
   volatile int nfail; struct { char msg[600]; char scen[160]; int verdict; uint16_t len; uint8_t c[MAXPREF]; } fails[32];
-  char samples[8][200]; volatile int nsamples; volatile int deadline_hit; volatile uint64_t dropped; volatile int stalled; volatile uint64_t slow_reruns;
+  char samples[8][200]; volatile int nsamples; volatile int deadline_hit; volatile uint64_t dropped; volatile int stalled; volatile uint64_t slow_reruns; volatile uint64_t scen_cut;
 } xshared_t;
 static xshared_t *X; static work_t *Q;
 static void qlock(void) { while (__sync_lock_test_and_set(&X->lock, 1)) usleep(50); }
 static void qunlock(void) { __sync_lock_release(&X->lock); }
-static int g_bound = 1; static double g_deadline = 0; static int g_scen = 0; int icb_max_deviations = 1000; int icb_free_sections = 0; unsigned icb_dev_kinds = 0xffffffffu;
+static int g_bound = 1; static double g_deadline = 0; static double g_scen_deadline = 0; /* per-scenario share of the deadline: every scenario gets explored at least to its first schedules */ static int g_scen = 0; int icb_max_deviations = 1000; int icb_free_sections = 0; unsigned icb_dev_kinds = 0xffffffffu;
 
 static void schedule_str(const uint8_t *c, int n, char *buf, size_t sz) { /* run-length: "0x12,1,0x3" */
   size_t o = 0; int i = 0; buf[0] = 0;
@@ -440,6 +440,7 @@ static void worker(void) {
   for (;;) {
     if (X->stop) return;
     if (g_deadline > 0 && now() > g_deadline) { X->deadline_hit = 1; X->stop = 1; return; }
+    if (g_scen_deadline > 0 && now() > g_scen_deadline) { X->deadline_hit = 1; X->scen_cut++; X->stop = 1; return; }
     qlock();
     if (X->head == X->tail) { int act = X->active; qunlock(); if (act == 0) return;
       { static double idle_since = 0; static uint64_t seen = 0; if (seen != X->schedules || idle_since == 0) { seen = X->schedules; idle_since = now(); } else if (now() - idle_since > 450) { X->stalled = 1; X->stop = 1; return; } }
@@ -477,10 +478,11 @@ int main(int argc, char **argv) {
     { int kc[16] = {0}; for (int i = 0; i < TR->npts; i++) kc[TR->kind[i] & 15]++; printf("shadow blocks=%llu of %llu, probes=%llu; ", (unsigned long long)TR->digest[MAXT - 1], (unsigned long long)SHCAP, (unsigned long long)TR->digest[MAXT - 2]); printf("decisions=%d by kind: start=%d fork=%d join=%d sections=%d static-write=%d static-read=%d lock=%d malloc=%d free=%d thread-end=%d; alloc_points=%d max_dev=%d\n", TR->npts, kc[0], kc[1], kc[2], kc[3], kc[4], kc[5], kc[6], kc[7], kc[8], kc[9], icb_alloc_points, icb_max_deviations); }
     return r[0] ? 1 : 0;
   }
-  uint64_t nscen_done = 0;
+  uint64_t nscen_done = 0; uint64_t g_scen_cut_count = 0;
   for (int sc = 0; sc < nscen; sc++) {
     if (only >= 0 && sc != only) continue;
     if (g_deadline > 0 && now() > g_deadline) { X->deadline_hit = 1; break; }
+    if (g_deadline > 0) { int left = 0; for (int q = sc; q < nscen; q++) if (only < 0 || q == only) left++; double rem = g_deadline - now(); double share = rem / (left > 0 ? left : 1) * 4.0; if (share < 30) share = 30; g_scen_deadline = now() + share; } /* a scenario may use up to three times its even share; what it does not use goes to the later ones */
     hb_select(sc); g_scen = sc;
     hb_prepare(); /* operands + sequential reference digests, before any fork */
     X->head = 0; X->tail = 0; X->active = 0; X->stop = 0;
@@ -488,14 +490,14 @@ int main(int argc, char **argv) {
     pid_t pids[64];
     for (int i = 0; i < nw; i++) { pids[i] = fork(); if (pids[i] == 0) { TR = mmap(NULL, sizeof(trace_t), PROT_READ | PROT_WRITE, MAP_SHARED | MAP_ANONYMOUS, -1, 0); worker(); _exit(0); } }
     for (int left = nw; left > 0; left--) { int st; pid_t dp = waitpid(-1, &st, 0); int i = 0; for (int q = 0; q < nw; q++) if (pids[q] == dp) i = q; (void)i; if (!(WIFEXITED(st) && WEXITSTATUS(st) == 0)) { fprintf(stderr, "explorer worker %d ended abnormally: status %x\n", (int)dp, st); X->stop = 1; X->errors++; int k = __sync_fetch_and_add(&X->nfail, 1); if (k < 32) { snprintf(X->fails[k].msg, 600, "explorer worker ended abnormally (status %x)", st); X->fails[k].verdict = 4; X->fails[k].len = 0; snprintf(X->fails[k].scen, 160, "%d:%s", sc, hb_name()); } } }
-    nscen_done++;
+    nscen_done++; if (X->scen_cut) { g_scen_cut_count++; X->scen_cut = 0; }
     if (getenv("ICB_VERBOSE")) fprintf(stderr, "scenario %d %s: schedules so far %llu, t=%.1f\n", sc, hb_name(), (unsigned long long)X->schedules, now() - t0);
   }
   FILE *f = outp ? fopen(outp, "w") : stdout;
   fprintf(f, "{\"property\":\"%s\",\"tier\":\"%s\",\"seed\":0,\"workers\":%d,\"total_cases\":%llu,\"executed\":%llu,\"distinct_nontrivial\":%llu,\"set_saturated\":0,\"deadline_hit\":%d,\"crashes\":0,\"hangs\":0,\"selfcheck\":0,\"nfail_total\":%d,\"wall_s\":%.3f,",
           hb_property(), tier, nw, (unsigned long long)X->schedules, (unsigned long long)X->schedules, (unsigned long long)X->schedules, X->deadline_hit || X->dropped || X->stalled ? 1 : 0, X->nfail, now() - t0);
-  fprintf(f, "\"counters\":{\"states\":%llu,\"transitions\":%llu,\"traces_validated_against_impl\":%llu,\"schedules\":%llu,\"preemption_bound\":%d,\"alternatives_beyond_bound\":%llu,\"max_decisions_per_execution\":%llu,\"instrumented_accesses\":%llu,\"static_writes_max\":%llu,\"cross_thread_reads_max\":%llu,\"max_live_threads\":%d,\"races\":%llu,\"digest_mismatches\":%llu,\"deadlocks\":%llu,\"queue_dropped\":%llu,\"slow_executions_rerun\":%llu,\"scenarios\":%llu},",
-          (unsigned long long)(X->tree_nodes + 1), (unsigned long long)X->decisions, (unsigned long long)X->schedules, (unsigned long long)X->schedules, g_bound, (unsigned long long)X->pruned_by_bound, (unsigned long long)X->maxpts, (unsigned long long)X->accesses, (unsigned long long)X->static_writes, (unsigned long long)X->crossloc, X->maxthreads, (unsigned long long)X->races, (unsigned long long)X->mismatches, (unsigned long long)X->deadlocks, (unsigned long long)X->dropped, (unsigned long long)X->slow_reruns, (unsigned long long)nscen_done);
+  fprintf(f, "\"counters\":{\"states\":%llu,\"transitions\":%llu,\"traces_validated_against_impl\":%llu,\"schedules\":%llu,\"preemption_bound\":%d,\"alternatives_beyond_bound\":%llu,\"max_decisions_per_execution\":%llu,\"instrumented_accesses\":%llu,\"static_writes_max\":%llu,\"cross_thread_reads_max\":%llu,\"max_live_threads\":%d,\"races\":%llu,\"digest_mismatches\":%llu,\"deadlocks\":%llu,\"queue_dropped\":%llu,\"slow_executions_rerun\":%llu,\"scenarios_cut_by_their_time_share\":%llu,\"scenarios\":%llu},",
+          (unsigned long long)(X->tree_nodes + 1), (unsigned long long)X->decisions, (unsigned long long)X->schedules, (unsigned long long)X->schedules, g_bound, (unsigned long long)X->pruned_by_bound, (unsigned long long)X->maxpts, (unsigned long long)X->accesses, (unsigned long long)X->static_writes, (unsigned long long)X->crossloc, X->maxthreads, (unsigned long long)X->races, (unsigned long long)X->mismatches, (unsigned long long)X->deadlocks, (unsigned long long)X->dropped, (unsigned long long)X->slow_reruns, (unsigned long long)(X->scen_cut ? 1 : 0) * 0 + (unsigned long long)g_scen_cut_count, (unsigned long long)nscen_done);
   fprintf(f, "\"samples\":["); int ns = X->nsamples > 8 ? 8 : X->nsamples; for (int i = 0; i < ns; i++) { if (i) fputc(',', f); jstr(f, X->samples[i]); }
   if (!ns) { char b[200]; snprintf(b, sizeof b, "%s: default schedule", hb_name()); jstr(f, b); }
   fprintf(f, "],\"failures\":["); int nf = X->nfail > 32 ? 32 : X->nfail;
